@@ -673,20 +673,46 @@ func genPen(c *hc.Ctx) {
 		}
 		glyphs := make([]canvasText.Glyph, n)
 		allH := true
+		// vertical runs: every glyph (whitespace included) carries a non-zero YAdvance
+		vrun := c.Chance(0.4)
+		if vrun {
+			c.Count("pen:vertical-run")
+		}
 		for i := range glyphs {
 			g := canvasText.Glyph{SFNT: f.SFNT, Size: 1, ID: ids[fi][c.Intn(len(ids[fi]))]}
+			g.Text = f.SFNT.Cmap.ToUnicode(g.ID)
+			if c.Chance(0.25) {
+				// whitespace: no outline, but it moves the pen like any other glyph
+				ws := []rune{' ', '\t', 0x00A0, 0x3000, 0x2003}[c.Intn(5)]
+				id := f.SFNT.GlyphIndex(ws)
+				if id == 0 {
+					id = f.SFNT.GlyphIndex(' ')
+				}
+				g.ID, g.Text = id, ws
+				c.Count("pen:whitespace-glyph")
+			}
 			g.XAdvance = int32(c.Intn(3001) - 500)
-			if c.Chance(0.3) {
-				g.YAdvance = int32(c.Intn(2001) - 1000)
+			if vrun {
+				g.XAdvance = 0
+				if c.Chance(0.2) {
+					g.XAdvance = int32(c.Intn(201) - 100)
+				}
+				g.YAdvance = -int32(200 + c.Intn(2500))
+				g.Vertical = true
+				allH = false
+			} else {
+				if c.Chance(0.3) {
+					g.YAdvance = int32(c.Intn(2001) - 1000)
+				}
+				if c.Chance(0.15) {
+					g.Vertical = true
+					allH = false
+				}
 			}
 			if c.Chance(0.3) {
 				g.XOffset = int32(c.Intn(601) - 300)
 				g.YOffset = int32(c.Intn(601) - 300)
 				c.Count("pen:glyph-offset")
-			}
-			if c.Chance(0.15) {
-				g.Vertical = true
-				allH = false
 			}
 			glyphs[i] = g
 		}
@@ -712,7 +738,11 @@ func genPen(c *hc.Ctx) {
 			own := &canvas.Path{}
 			f.SFNT.GlyphPath(own, g.ID, 0, 0, 0, 1, font.NoHinting)
 			lens = append(lens, len(own.Data()))
-			firsts = append(firsts, [2]float64{own.Data()[1], own.Data()[2]})
+			if len(own.Data()) > 2 {
+				firsts = append(firsts, [2]float64{own.Data()[1], own.Data()[2]})
+			} else {
+				firsts = append(firsts, [2]float64{})
+			}
 			f.SFNT.GlyphPath(exp, g.ID, 0, float64(x+int64(g.XOffset)), float64(y+int64(g.YOffset)), 1, font.NoHinting)
 			x += int64(g.XAdvance)
 			y += int64(g.YAdvance)
@@ -749,6 +779,9 @@ func genPen(c *hc.Ctx) {
 		var pos []string
 		off := 0
 		for k := range glyphs {
+			if lens[k] == 0 {
+				continue // unobservable: the model is asked for the outlined glyphs only
+			}
 			px := got[off+1] - firsts[k][0]
 			py := got[off+2] - firsts[k][1]
 			pos = append(pos, strconv.FormatInt(int64(math.Round(px)), 10), strconv.FormatInt(int64(math.Round(py)), 10))
@@ -756,8 +789,8 @@ func genPen(c *hc.Ctx) {
 		}
 		var line strings.Builder
 		fmt.Fprintf(&line, "PEN %d %d", face.XOffset, face.YOffset)
-		for _, g := range glyphs {
-			fmt.Fprintf(&line, " %d %d %d %d %s", g.XAdvance, g.YAdvance, g.XOffset, g.YOffset, hc.B(g.Vertical))
+		for k, g := range glyphs {
+			fmt.Fprintf(&line, " %d %d %d %d %s %s", g.XAdvance, g.YAdvance, g.XOffset, g.YOffset, hc.B(g.Vertical), hc.B(lens[k] > 0))
 		}
 		c.Count("pen:glyphs " + bucket(n))
 		c.Distinct(line.String())
@@ -769,6 +802,10 @@ func genPen(c *hc.Ctx) {
 			// public API on a real face: ToPath's width is TextWidth (no face offset), one outline per glyph
 			rf := f.Face(float64(6+c.Intn(40)), canvas.Black)
 			str := textPool[c.Intn(len(textPool))]
+			if c.Chance(0.4) {
+				rf.Direction = canvasText.TopToBottom // upright vertical shaping: advances run along y
+				c.Count("pen:public ToPath top-to-bottom")
+			}
 			var p2 *canvas.Path
 			var w2, tw2 float64
 			var err2 error
@@ -780,10 +817,14 @@ func genPen(c *hc.Ctx) {
 			c.Count("pen:public ToPath/TextWidth")
 			gl := rf.Glyphs(str)
 			exp2 := &canvas.Path{}
-			x := int64(0)
+			x, y := int64(0), int64(0)
 			for _, g := range gl {
-				f.SFNT.GlyphPath(exp2, g.ID, 0, rf.MmPerEm*float64(x+int64(g.XOffset)), rf.MmPerEm*float64(int64(g.YOffset)), rf.MmPerEm, font.NoHinting)
+				f.SFNT.GlyphPath(exp2, g.ID, 0, rf.MmPerEm*float64(x+int64(g.XOffset)), rf.MmPerEm*float64(y+int64(g.YOffset)), rf.MmPerEm, font.NoHinting)
 				x += int64(g.XAdvance)
+				y += int64(g.YAdvance)
+				if g.YAdvance != 0 {
+					c.Count("pen:public glyph with YAdvance")
+				}
 			}
 			a, b := p2.Data(), exp2.Data()
 			ok := len(a) == len(b)
@@ -791,7 +832,7 @@ func genPen(c *hc.Ctx) {
 				ok = math.Abs(a[i]-b[i]) <= 1e-9*(1+math.Abs(b[i]))
 			}
 			if !ok {
-				failK(c, "topath-placement", "ToPath(string) outlines are not at the summed advances", map[string]any{"font": f.Name(), "text": str, "size": rf.Size})
+				failK(c, "topath-placement", "ToPath(string) outlines are not at the summed advances", map[string]any{"font": f.Name(), "text": str, "size": rf.Size, "direction": fmt.Sprint(rf.Direction)})
 			}
 			if w2 != tw2 || math.Abs(w2-rf.MmPerEm*float64(x)) > 1e-9*(1+math.Abs(w2)) {
 				failK(c, "topath-width-vs-textwidth", fmt.Sprintf("ToPath width %v, TextWidth %v, advances %v", w2, tw2, rf.MmPerEm*float64(x)), map[string]any{"font": f.Name(), "text": str, "size": rf.Size})
